@@ -402,3 +402,28 @@ def check_C18(res, replay):
                     "pairs of random molecules (each <= ~14 atoms, distorted), the second rotated and placed 50-10000 A away in a random direction, both concatenation orders: "
                     "connectivity of the union vs union of the parts' (index-shifted) plus all cross pairs; assigned types; E(A+B) vs E(A)+E(B) within the cross van der Waals tail; forces; "
                     "plus the perception and construction correspondences the theorems rest on")
+
+
+# ---------------------------------------------------------------------------------------------------- C03
+
+def check_C03(res, replay):
+    res.trusted = TB_COMMON + ["Mathlib (real analysis)", "energy model tied bit for bit to the Rust energy functions; gradient programs re-translated each run",
+                               "axioms audited: subset of {propext, Classical.choice, Quot.sound}"]
+    res.assumptions = [REAL_ASSUMPTION,
+                       "PARTLY EXPLORED: zero net torque and the rotation covariance of the gradient are checked on the real code only (they follow from the proved rotation invariance by "
+                       "differentiating along rotations; that derivation is not formalised); translation invariance, rotation invariance of all seven energies and zero net force are theorems",
+                       "perception under rigid motion: in floats a pair sitting within 1e-6 (relative) of the 1.3 x radii threshold, or two candidate distances tied to 1e-6, may flip by rounding — "
+                       "such inputs are skipped for the connectivity comparison and counted"]
+    L.run_translators(["tables", "terms", "uff"], res)
+    L.prove(["OptRs.Props.C03", "OptRs.Props.C02"], res, GRAD_LEMMAS + ["OptRs.Lemmas.Translate", "OptRs.Lemmas.Rotate", "OptRs.Model.Perceive"])
+    if L.build_harness(res) and L.build_model(res):
+        for stream, model, io in (("terms", "terms", True), ("rigid", "-", False)):
+            lines = harness_lines(stream, [], res)
+            if lines is not None:
+                L.compare_lines(lines, model, res, stream, ignore_oracle=io)
+        res.cases += int(res.stats.get("rigid.force_fields_checked", "0"))
+        res.distinct += int(res.stats.get("rigid.force_fields_checked", "0"))
+    return L.finish(res, "proof", "lake build OptRs.Props.C03 OptRs.Props.C02 + #print axioms audit",
+                    "library and random molecules (distorted 0.02-0.2 A) x a random proper rotation (unit quaternion) x a translation of magnitude 1..1e4 A, for UFF and RB: energy of the same "
+                    "force field on moved coordinates, gradient vs rotated gradient, net force and net torque about the centroid, perceived connectivity and the energy of the force field "
+                    "rebuilt from the moved structure; plus the bitwise term correspondence the theorems rest on")
